@@ -65,8 +65,8 @@ PROPS["C04"] = dict(
 
 
 PROPS["C02"] = dict(
-    modules=["Sth.Props.C01", "Sth.Props.C08"],
-    theorems=list(CORE_RL),
+    modules=["Sth.Props.C01", "Sth.Props.C08", "Sth.Props.C02"],
+    theorems=list(CORE_RL) + ["Sth.C02_store_refines_map", "Sth.C02_snapshot_eq_rescan", "Sth.C02_reopen_preserves_observations", "Sth.C02_reopen_twice"],
     runs=[dict(engine="seq", quick=400, thorough=10000, extra=["-profile", "c02"], nontrivial=["reopen", "reopen-rescan", "reopen-badsnap", "paths"])],
     requires_ops=["close", "open", "paths", "rmsnap", "badsnap"],
     rule="C01-style traces with Close/reopen at arbitrary positions: with the snapshot, with the snapshot deleted, with a "
@@ -79,8 +79,8 @@ PROPS["C02"] = dict(
 )
 
 PROPS["C15"] = dict(
-    modules=["Sth.Props.C01", "Sth.Props.C08"],
-    theorems=list(CORE_RL),
+    modules=["Sth.Props.C01", "Sth.Props.C08", "Sth.Props.C15"],
+    theorems=list(CORE_RL) + ['Sth.C15_adapter_refines_contract', 'Sth.C15_init', 'Sth.C15_adapter_calls_store', 'Sth.C15_map_is_contract', 'Sth.C15_put_then_get', 'Sth.C15_has_size_agree_with_get', 'Sth.C15_delete_not_found', 'Sth.C15_duplicate_put_silent', 'Sth.C15_unknown_cid_not_found', 'Sth.C15_alias_same_block', 'Sth.C15_alias_delete', 'Sth.C15_hash_on_read', 'Sth.C15_hash_on_read_enabled', 'Sth.C15_hash_on_read_disabled', 'Sth.C15_malformed_cid', 'Sth.C15_flag_after_toggle', 'Sth.C15_cancelled_ctx', 'Sth.C15_cancelled_ctx_run', 'Sth.C15_cancelled_ctx_contract'],
     runs=[dict(engine="bs", quick=400, thorough=20000, nontrivial=["duplicate-put", "hash-mismatch-rejected", "hash-mismatch-unchecked", "cancelled", "delete", "empty-block"])],
     rule="sequences of Put/PutMany/Get/Has/GetSize/DeleteBlock/HashOnRead on the real HashedBlockstore over blocks of 0..4 KiB, "
          "CIDv0/v1, codecs raw/dag-pb/dag-cbor, sha2-256/sha2-512/blake2b-256/identity, aliases sharing a multihash, unknown CIDs, "
@@ -150,8 +150,8 @@ PROPS["C12"] = dict(
 )
 
 PROPS["C13"] = dict(
-    modules=["Sth.Props.C01", "Sth.Props.C08"],
-    theorems=list(CORE_RL),
+    modules=["Sth.Props.C01", "Sth.Props.C08", "Sth.Props.C13"],
+    theorems=list(CORE_RL) + ['Sth.C13_step', 'Sth.C13_current_is_current', 'Sth.C13_current_prefix', 'Sth.C13_step_overwrite', 'Sth.C13_step_remove', 'Sth.C13_step_new_key', 'Sth.C13_step_immutable', 'Sth.C13_step_same_value', 'Sth.C13_step_malformed', 'Sth.C13_step_remove_absent', 'Sth.C13_step_other', 'Sth.C13_recorded_not_current', 'Sth.C13_current_not_recorded', 'Sth.C13_exactly_once', 'Sth.C13_run', 'Sth.C13_file_well_formed'],
     runs=[dict(engine="seq", quick=300, thorough=10000, extra=["-profile", "c13"], nontrivial=["freelist-nonempty", "pgc-relocated"]),
           dict(engine="sched", quick=120, thorough=10000, extra=["-profile", "c13"], nontrivial=["freelist-nonempty"])],
     rule="C04-style traces (small files, overwrites, removals, flushes, reopen, GC cycles with relocation and deadlines); after every "
